@@ -515,9 +515,178 @@ impl FontRepo for TfmDirect {
     }
 }
 
+/// A `tfm::File` as the `tf` request wants it: `nchars (c wi hi di)* nw w* nh h* nd d*`, the
+/// tables converted with the crate's own `FixWord::to_scaled(design_size)` (C17's subject).
+fn enc_font(id: i64, f: &tfm::File) -> Vec<i64> {
+    let mut v = vec![id, f.char_dimens.len() as i64];
+    for (c, d) in &f.char_dimens {
+        v.extend([c.0 as i64, d.width_index.get() as i64, d.height_index as i64, d.depth_index as i64]);
+    }
+    for t in [&f.widths, &f.heights, &f.depths] {
+        v.push(t.len() as i64);
+        v.extend(t.iter().map(|x| x.to_scaled(f.header.design_size).0 as i64));
+    }
+    v
+}
+
+/// Nodes of a real list for a `tf` request: glyphs as `20|21 char font`.
+fn enc_nodes(l: &[ds::Horizontal]) -> Option<Vec<i64>> {
+    let mut out = vec![];
+    for e in l {
+        use ds::Horizontal as H;
+        match e {
+            H::Char(c) => out.extend([20, c.char as i64, c.font as i64]),
+            H::Ligature(c) => out.extend([21, c.char as i64, c.font as i64]),
+            H::Glue(g) => out.extend([
+                5,
+                g.value.width.0 as i64,
+                g.value.stretch.0 as i64,
+                order_code(g.value.stretch_order),
+                g.value.shrink.0 as i64,
+                order_code(g.value.shrink_order),
+            ]),
+            H::Kern(k) => out.extend([6, k.width.0 as i64]),
+            H::Penalty(p) => out.extend([7, p.0 as i64]),
+            H::Discretionary(_) => out.push(8),
+            H::HBox(b) => out.extend([2, b.height.0 as i64, b.width.0 as i64, b.depth.0 as i64, b.shift_amount.0 as i64]),
+            H::Rule(r) => out.extend([4, r.height.0 as i64, r.width.0 as i64, r.depth.0 as i64]),
+            _ => return None,
+        }
+    }
+    Some(out)
+}
+
+/// A synthetic font of a `tf` case: `nchars (c wi hi di)* nw w* nh h* nd d*` with raw fix
+/// words (design size 10pt).
+struct RawFont {
+    chars: Vec<[i64; 4]>,
+    tables: [Vec<i64>; 3],
+}
+
+fn parse_raw_fonts(v: &mut &[i64], n: usize) -> Vec<RawFont> {
+    let mut next = |v: &mut &[i64]| {
+        let (h, t) = v.split_first().expect("truncated tf case");
+        *v = t;
+        *h
+    };
+    (0..n)
+        .map(|_| {
+            let nc = next(v) as usize;
+            let chars = (0..nc).map(|_| [next(v), next(v), next(v), next(v)]).collect();
+            let mut tables: [Vec<i64>; 3] = Default::default();
+            for t in tables.iter_mut() {
+                let k = next(v) as usize;
+                *t = (0..k).map(|_| next(v)).collect();
+            }
+            RawFont { chars, tables }
+        })
+        .collect()
+}
+
+fn enc_raw_fonts(fs: &[RawFont]) -> Vec<i64> {
+    let mut v = vec![fs.len() as i64];
+    for f in fs {
+        v.push(f.chars.len() as i64);
+        for c in &f.chars {
+            v.extend(c);
+        }
+        for t in &f.tables {
+            v.push(t.len() as i64);
+            v.extend(t);
+        }
+    }
+    v
+}
+
+fn build_tfm(f: &RawFont) -> tfm::File {
+    let mut file = tfm::File::default();
+    file.header.design_size = tfm::FixWord::ONE * 10;
+    for c in &f.chars {
+        file.char_dimens.insert(
+            tfm::Char(c[0] as u8),
+            tfm::CharDimensions {
+                width_index: match std::num::NonZeroU8::new(c[1] as u8) {
+                    Some(n) => tfm::WidthIndex::Valid(n),
+                    None => tfm::WidthIndex::Invalid,
+                },
+                height_index: c[2] as u8,
+                depth_index: c[3] as u8,
+                italic_index: 0,
+            },
+        );
+    }
+    let fw = |t: &Vec<i64>| t.iter().map(|x| tfm::FixWord(*x as i32)).collect::<Vec<_>>();
+    file.widths = fw(&f.tables[0]);
+    file.heights = fw(&f.tables[1]);
+    file.depths = fw(&f.tables[2]);
+    file
+}
+
+/// The node part of a `tf` case: `20|21 char font` or any `hp` item.
+fn split_nodes(mut v: &[i64], n: usize) -> Vec<Vec<i64>> {
+    let mut out = vec![];
+    for _ in 0..n {
+        let a = if v[0] == 20 || v[0] == 21 { 3 } else { arity(v[0]) };
+        out.push(v[..a].to_vec());
+        v = &v[a..];
+    }
+    assert!(v.is_empty(), "trailing integers in tf case");
+    out
+}
+
+fn random_raw_font(rng: &mut Rng) -> RawFont {
+    let mut tables: [Vec<i64>; 3] = Default::default();
+    for t in tables.iter_mut() {
+        let k = rng.range(1, 5);
+        *t = (0..k).map(|i| if i == 0 { 0 } else { rng.range(-(1 << 20), 3 << 20) }).collect();
+    }
+    let mut chars = vec![];
+    for c in [0i64, 97, 98, 99, 100, 255] {
+        if rng.chance(2, 3) {
+            // indices: 0 (invalid width / zero entry), inside the table, one past its end
+            let idx = |rng: &mut Rng, t: &Vec<i64>| rng.range(0, t.len() as i64);
+            let wi = if rng.chance(1, 6) { 0 } else { idx(rng, &tables[0]) };
+            chars.push([c, wi, idx(rng, &tables[1]), idx(rng, &tables[2])]);
+        }
+    }
+    RawFont { chars, tables }
+}
+
+fn random_tf_case(rng: &mut Rng) -> String {
+    let nf = rng.range(1, 3);
+    let fonts: Vec<RawFont> = (0..nf).map(|_| random_raw_font(rng)).collect();
+    let n = rng.range(0, 8);
+    let mut nodes: Vec<Vec<i64>> = vec![];
+    let mut last: Option<i64> = None;
+    for _ in 0..n {
+        let it = match rng.below(10) {
+            0..=6 => {
+                let c = match last {
+                    Some(c) if rng.chance(1, 2) => c,
+                    _ => *rng.pick(&[0i64, 97, 98, 99, 100, 255, 256, 300, 8364]),
+                };
+                last = Some(c);
+                let font = if rng.chance(1, 40) { nf } else { rng.range(0, nf - 1) };
+                vec![20 + rng.below(2) as i64, c, font]
+            }
+            7 => vec![6, amount(rng)],
+            8 => vec![2, amount(rng), amount(rng), amount(rng), amount(rng)],
+            _ => glue(amount(rng), amount(rng), rng.below(4) as i64, amount(rng), rng.below(4) as i64),
+        };
+        nodes.push(it);
+    }
+    let mut v = enc_raw_fonts(&fonts);
+    v.extend([rng.below(2) as i64, amount(rng), nodes.len() as i64]);
+    for n in &nodes {
+        v.extend(n);
+    }
+    format!("tf {}", join(&v))
+}
+
 struct C15 {
     tfm: Option<(boxworks_text::TextPreprocessorImpl, boxworks_text::TfmFontRepo)>,
     direct: Option<TfmDirect>,
+    tx_nodes: Option<(usize, Vec<i64>)>,
     repo: String,
 }
 
@@ -601,8 +770,16 @@ fn canon(v: &[i64]) -> Vec<i64> {
 const ORDER_NAMES: [&str; 4] = ["normal", "fil", "fill", "filll"];
 
 impl C15 {
-    fn compare(&mut self, mode: i64, amt: i64, items: &[Vec<i64>], real: Result<Real, String>, drv: &mut Driver, stream: &str, mut out: CaseOutcome) -> CaseOutcome {
-        let mut req = enc_case(mode, amt, items);
+    fn compare(&mut self, mode: i64, amt: i64, items: &[Vec<i64>], real: Result<Real, String>, drv: &mut Driver, stream: &str, out: CaseOutcome) -> CaseOutcome {
+        self.compare_req(None, mode, amt, items, real, drv, stream, out)
+    }
+
+    /// `tf_req`: a `tf …` request (raw font tables, glyph nodes as (char, font)) to be used
+    /// instead of the `hp` request built from `items` (which then serve tags and sums only).
+    #[allow(clippy::too_many_arguments)]
+    fn compare_req(&mut self, tf_req: Option<String>, mode: i64, amt: i64, items: &[Vec<i64>], real: Result<Real, String>, drv: &mut Driver, stream: &str, mut out: CaseOutcome) -> CaseOutcome {
+        let is_tf = tf_req.is_some();
+        let mut req = tf_req.unwrap_or_else(|| enc_case(mode, amt, items));
         match &real {
             Ok(r) => req.push_str(&format!(" 1 {}", join(&r.v))),
             Err(_) => req.push_str(" 0"),
@@ -610,6 +787,17 @@ impl C15 {
         let reply = drv.ask(&req);
         if reply == "bad-request" {
             panic!("driver rejected: {req}");
+        }
+        if reply == "unregistered-font" {
+            // `TfmFontRepo` indexes its map with the font id: the model says panic
+            out.tag("tf:unregistered-font");
+            if real.is_ok() {
+                out.fail(Kind::ImplVsModel, stream, "unregistered font: model panics, real returned", format!("request: {req}"));
+            }
+            return out;
+        }
+        if is_tf && field(&reply, "tdims") != "1" {
+            out.fail(Kind::ModelVsSpec, stream, "hpack_tfm_dims: model dimensions differ from the raw tables", format!("request: {req}\nreply: {reply}"));
         }
         let fits = field(&reply, "fits") == "1";
         let fits_old = field(&reply, "fitsold") == "1";
@@ -644,6 +832,16 @@ impl C15 {
         }
         if items.is_empty() {
             out.tag("list=empty");
+        }
+        // theorem small_inRange, on every case: TeX's size discipline implies the i32 side condition
+        let small = field(&reply, "small") == "1";
+        if small {
+            out.tag("small(TeX size discipline)");
+            if !fits {
+                out.fail(Kind::ModelVsSpec, stream, "small_inRange: Small but not inRange", format!("request: {req}\nreply: {reply}"));
+            }
+        } else if fits {
+            out.tag("not-small-but-in-range");
         }
         if !fits {
             // some intermediate value leaves i32: outside the quantifier (TeX assumes it does
@@ -680,6 +878,13 @@ impl C15 {
                     out.tag("totals:negative");
                 }
             }
+        }
+        // theorems of the deepening round, checked on every case
+        if field(&reply, "le") != "1" {
+            out.fail(Kind::ModelVsSpec, stream, "hpackLe_eq_tex: the <= variant differs from TeX", format!("request: {req}\nreply: {reply}"));
+        }
+        if fits && field(&reply, "mfill") != "1" {
+            out.fail(Kind::ModelVsSpec, stream, "hpack_fills: the model's set widths do not fill the box", format!("request: {req}\nreply: {reply}"));
         }
         if field(&reply, "ms") != "1" {
             out.fail(Kind::ModelVsSpec, stream, format!("model differs from TeX tex={tex}"), format!("request: {req}\nreply: {reply}"));
@@ -734,6 +939,15 @@ impl C15 {
                     join(&m),
                     join(&s)
                 ),
+            );
+        } else if !b("fill") {
+            // the node-by-node form of "fills the box exactly" (theorem set_widths_fill),
+            // evaluated by Lean on the real box
+            out.fail(
+                Kind::ImplVsSpec,
+                stream,
+                "set widths of the nodes do not add up to the box width",
+                format!("TeX's branch: {tex}\nreal: {}\nrequest: {req}", join(&r.v)),
             );
         } else if canon(&r.v) != canon(&m) {
             let names = ["height", "width", "depth", "order", "num", "den"];
@@ -863,6 +1077,22 @@ impl Property for C15 {
         v.push("tx 65536 office fluffy AV find the difficult waffle".into());
         v.push("tx 6553600 a @1+a @0+a @1a f @0fi @1+ff office @1+e".into());
         v.push("tx 0 a @1+a".into());
+        // tf: one font, `a` valid, `b` invalid width index, `c` height index outside the table;
+        // a second font with other tables; a code above 255; an unregistered font
+        {
+            let f0 = RawFont { chars: vec![[97, 1, 1, 1], [98, 0, 1, 1], [99, 1, 4, 4]], tables: [vec![0, 500000], vec![0, 400000], vec![0, 100000]] };
+            let f1 = RawFont { chars: vec![[97, 2, 1, 0]], tables: [vec![0, 7, 900000], vec![0, 700000], vec![0]] };
+            let mut base = enc_raw_fonts(&[f0, f1]);
+            let nodes: Vec<Vec<i64>> = vec![vec![20, 97, 0], vec![21, 97, 1], vec![20, 98, 0], vec![20, 99, 0], vec![20, 300, 1], vec![20, 98, 1]];
+            let mut a = base.clone();
+            a.extend([1, 0, nodes.len() as i64]);
+            for n in &nodes {
+                a.extend(n);
+            }
+            v.push(format!("tf {}", join(&a)));
+            base.extend([1, 0, 1, 20, 97, 2]);
+            v.push(format!("tf {}", join(&base)));
+        }
         v
     }
     fn generate(&mut self, ctx: &Ctx, rng: &mut Rng) -> Vec<String> {
@@ -918,6 +1148,10 @@ impl Property for C15 {
         for i in 0..n_rand {
             let ml = if i % 4 == 0 { 3 } else { max_len };
             v.push(random_case(rng, ml));
+        }
+        let n_tf = if ctx.thorough { 60_000 } else { 4_000 };
+        for _ in 0..n_tf {
+            v.push(random_tf_case(rng));
         }
         for _ in 0..n_tx {
             let n = rng.range(1, 7);
@@ -1027,12 +1261,97 @@ impl Property for C15 {
                 }
                 let items = encode_real_list(self.direct.as_ref().unwrap(), &list)
                     .expect("text lists contain chars, ligatures, kerns, glue");
+                self.tx_nodes = Some((list.len(), enc_nodes(&list).expect("encodable nodes")));
                 let fr: &boxworks_text::TfmFontRepo = &self.tfm.as_ref().unwrap().1;
                 let real = run_real(fr, list, 0, w);
                 out.tag("stream=tx");
                 // two ways: exact width, and additional = width - something is covered by hp
-                let fr_out = self.compare(0, w, &items, real, drv, "tx", out);
-                fr_out
+                // the request carries the raw tables of both fonts and the glyphs as (char,
+                // font): Lean does the lookups (model of TfmFontRepo / *_utf8)
+                let d = self.direct.as_ref().unwrap();
+                let mut v = vec![d.0.len() as i64];
+                for (id, f) in d.0.iter().enumerate() {
+                    v.extend(enc_font(id as i64, f));
+                }
+                let nodes = self.tx_nodes.take().expect("nodes");
+                v.extend([0, w, nodes.0 as i64]);
+                v.extend(nodes.1);
+                let tf_req = format!("tf {}", join(&v));
+                // cross-check: the same list with the glyphs measured by tfm::File::*_utf8
+                let m_direct = drv.ask(&format!("{} 0", enc_case(0, w, &items)));
+                let m_tf = drv.ask(&format!("{tf_req} 0"));
+                if section(&m_direct, "M", 6) != section(&m_tf, "M", 6) {
+                    out.fail(
+                        Kind::ImplVsModel,
+                        "tx",
+                        "lookup: tfm::File::*_utf8 differs from the Lean TfmFont lookup",
+                        format!("direct: {m_direct}\nlean lookup: {m_tf}"),
+                    );
+                }
+                self.compare_req(Some(tf_req), 0, w, &items, real, drv, "tx", out)
+            }
+            "tf" => {
+                // synthetic TFM fonts registered in the real TfmFontRepo
+                let v = parse_i64s(rest);
+                let mut cur: &[i64] = &v;
+                let nf = cur[0] as usize;
+                cur = &cur[1..];
+                let fonts = parse_raw_fonts(&mut cur, nf);
+                let (mode, amt, n) = (cur[0], cur[1], cur[2] as usize);
+                let nodes = split_nodes(&cur[3..], n);
+                let files: Vec<tfm::File> = fonts.iter().map(build_tfm).collect();
+                let mut repo = boxworks_text::TfmFontRepo::default();
+                for (id, f) in files.iter().enumerate() {
+                    repo.register_font(id as u32, f.clone());
+                }
+                let direct = TfmDirect(files);
+                // the real list
+                let mut list: Vec<ds::Horizontal> = vec![];
+                let mut plain: Vec<Vec<i64>> = vec![]; // glyphs measured by *_utf8, for tags and sums
+                for (idx, nd) in nodes.iter().enumerate() {
+                    if nd[0] == 20 || nd[0] == 21 {
+                        let char = char::from_u32(nd[1] as u32).expect("scalar value");
+                        let font = nd[2] as u32;
+                        if nd[0] == 20 {
+                            list.push(ds::Char { char, font }.into());
+                        } else {
+                            list.push(
+                                ds::Ligature { char, font, original_chars: "fl".into(), includes_left_boundary: false, includes_right_boundary: false }.into(),
+                            );
+                        }
+                        if (font as usize) < nf {
+                            let o = |x: Option<Scaled>| [x.is_some() as i64, x.map(|s| s.0 as i64).unwrap_or(0)];
+                            let (w, h, d) = (o(direct.width(char, font)), o(direct.height(char, font)), o(direct.depth(char, font)));
+                            plain.push(vec![nd[0] - 20, w[0], w[1], h[0], h[1], d[0], d[1]]);
+                            if w[0] == 0 {
+                                out.tag("tf:glyph-not-in-font");
+                            } else if h[0] == 0 || d[0] == 0 {
+                                out.tag("tf:height-or-depth-index-outside-table");
+                            }
+                            if nd[1] > 255 {
+                                out.tag("tf:char-above-255");
+                            }
+                        } else {
+                            plain.push(vec![nd[0] - 20, 0, 0, 0, 0, 0, 0]);
+                        }
+                    } else {
+                        let (l1, _) = build(std::slice::from_ref(nd));
+                        let _ = idx;
+                        list.extend(l1);
+                        plain.push(nd.clone());
+                    }
+                }
+                let real = run_real(&repo, list, mode, amt);
+                let mut req = vec![nf as i64];
+                for (id, f) in direct.0.iter().enumerate() {
+                    req.extend(enc_font(id as i64, f));
+                }
+                req.extend([mode, amt, n as i64]);
+                for nd in &nodes {
+                    req.extend(nd);
+                }
+                out.tag("stream=tf");
+                self.compare_req(Some(format!("tf {}", join(&req))), mode, amt, &plain, real, drv, "tf", out)
             }
             "un" => {
                 let k: i64 = rest.trim().parse().expect("kind");
@@ -1088,6 +1407,25 @@ impl Property for C15 {
                     }
                 }
             }
+            "tf" => {
+                let v = parse_i64s(rest);
+                let mut cur: &[i64] = &v;
+                let nf = cur[0] as usize;
+                cur = &cur[1..];
+                let fonts = parse_raw_fonts(&mut cur, nf);
+                let (mode, amt, n) = (cur[0], cur[1], cur[2] as usize);
+                let nodes = split_nodes(&cur[3..], n);
+                for i in 0..nodes.len() {
+                    let mut o = nodes.clone();
+                    o.remove(i);
+                    let mut w = enc_raw_fonts(&fonts);
+                    w.extend([mode, amt, o.len() as i64]);
+                    for nd in &o {
+                        w.extend(nd);
+                    }
+                    c.push(format!("tf {}", join(&w)));
+                }
+            }
             "tx" => {
                 let (w, text) = rest.split_once(' ').unwrap_or((rest, ""));
                 let words: Vec<&str> = text.split(' ').collect();
@@ -1107,5 +1445,5 @@ impl Property for C15 {
 
 fn main() {
     let repo = parse_args().repo;
-    run(C15 { tfm: None, direct: None, repo });
+    run(C15 { tfm: None, direct: None, tx_nodes: None, repo });
 }
